@@ -27,6 +27,11 @@ fn text_of(c: &Circuit) -> Value {
 
 pub fn run_export(case: &Value) -> Value {
     let mode = case["mode"].as_str().unwrap();
+    // optional "before": other circuits exported first on this thread (their results, errors included, are dropped): what the judged
+    // export returns must not depend on them
+    if let Some(bs) = case.get("before").and_then(|b| b.as_array()) {
+        for g in bs { let mut c2 = case.clone(); c2["gates"] = g.clone(); if let Ok((cb, _, _)) = build(&c2) { let _ = text_of(&cb); } }
+    }
     let (circ, orcs, rbs) = match build(case) { Ok(x) => x, Err(v) => return v };
     match mode {
         "text" => { let mut o = text_of(&circ); o["oracles"] = json!(orcs); o["readback"] = json!(rbs); o }
